@@ -52,7 +52,7 @@ def run(tier):
     so = vlib.preload_so()
     rng = random.Random(SEED)
     reqs = "{<<1,2,4>>, <<4,4>>, <<2,2,2>>, <<5>>, <<3,3,3>>, <<9>>, <<1,1,1,1,1,1>>}"
-    base = {"BUFSZ": 4, "FileLen": 6 if tier == "quick" else 9, "MaxEintr": 1 if tier == "quick" else 2, "Dev": '"none"', "Emit": False}
+    base = {"BUFSZ": 4, "FileLen": 6 if tier == "quick" else 9, "MaxEintr": 1 if tier == "quick" else 2, "Dev": '"none"', "Emit": False, "ProbeFirst": 0}
     cfg = work + "/s.cfg"
     write_cfg(cfg, spec="FairSpec", constants=base, defs={"Requests": reqs}, invariants=["PrefixOK", "NoError", "SplitIndependent"],
               properties=["Terminates"], deadlock=False)
@@ -62,11 +62,21 @@ def run(tier):
         print("MODEL-FAILURE: Stream violates %s" % r["violated"])
         ev.write()
         return 2
+    # the same with a single look at the stream first (tar_iterator_create sniffs format and compressor from one call)
+    pc_ = dict(base, ProbeFirst=2, FileLen=6)
+    write_cfg(cfg, spec="FairSpec", constants=pc_, defs={"Requests": "{<<1,2,4>>, <<4,4>>, <<9>>}"}, invariants=["PrefixOK", "NoError", "SplitIndependent", "ProbeComplete"],
+              properties=["Terminates"], deadlock=False)
+    r = run_tlc("Stream", cfg, workers=16, timeout=1800)
+    ev.tlc(r, "Stream with a probe of 2 units first")
+    if not r["ok"]:
+        print("MODEL-FAILURE: Stream (probe) violates %s" % r["violated"])
+        ev.write()
+        return 2
     devres = {}
-    for dev in ["ShortReadIsEOF", "EintrIsError", "RefillDropsTail"]:
+    for dev in ["ShortReadIsEOF", "EintrIsError", "RefillDropsTail", "PrecacheSingleRead"]:
         c = dict(base)
-        c.update({"Dev": '"%s"' % dev, "BUFSZ": 3, "FileLen": 5})
-        write_cfg(cfg, spec="FairSpec", constants=c, defs={"Requests": reqs}, invariants=["PrefixOK", "NoError", "SplitIndependent"], deadlock=False)
+        c.update({"Dev": '"%s"' % dev, "BUFSZ": 3, "FileLen": 5, "ProbeFirst": 2 if dev == "PrecacheSingleRead" else 0})
+        write_cfg(cfg, spec="FairSpec", constants=c, defs={"Requests": reqs}, invariants=["PrefixOK", "NoError", "SplitIndependent", "ProbeComplete"], deadlock=False)
         r = run_tlc("Stream", cfg, workers=4, timeout=300)
         ev.tlc(r, "dev " + dev)
         devres[dev] = bool(r["violated"])
@@ -83,13 +93,21 @@ def run(tier):
     r = run_tlc("Stream", cfg, workers=4, timeout=900)
     ev.tlc(r, "Stream emit")
     recs = bpbind.parse_emitted(r["out"])
+    c["ProbeFirst"] = 2
+    write_cfg(cfg, spec="Spec", constants=c, defs={"Requests": "{<<1,2,4>>, <<5>>, <<9>>}"}, invariants=["EmitOK"], deadlock=False)
+    r = run_tlc("Stream", cfg, workers=4, timeout=900)
+    ev.tlc(r, "Stream emit (probe first)")
+    precs = bpbind.parse_emitted(r["out"])
+    rng.shuffle(precs)
+    recs = recs + precs[:(300 if tier == "quick" else 3000)]
     uniq = {}
     for x in recs:
-        uniq[json.dumps([x["script"], x["reqs"]])] = x
+        uniq[json.dumps([x["script"], x["reqs"], x.get("probe", 0)])] = x
     recs = list(uniq.values())
     cap = 600 if tier == "quick" else 6000
     if len(recs) > cap:
-        recs = rng.sample(recs, cap)
+        withp = [x for x in recs if x.get("probe")]
+        recs = rng.sample([x for x in recs if not x.get("probe")], cap - min(len(withp), cap // 3)) + withp[:cap // 3]
     binp = work + "/replay_stream"
     if not build.compile_harness(VERIF + "/harness/replay_stream.c", binp, variant="plain"):
         raise RuntimeError("harness build failed")
@@ -101,7 +119,8 @@ def run(tier):
     def do(x):
         script = ",".join("E" if s == "E" else str(int(s) * UNIT) for s in x["script"] if s != 0)
         env = {"LD_PRELOAD": so, "VP_READ_SCRIPT": "%s|%s" % (fpath, script)}
-        rc, o, e = sh([binp, fpath] + [str(n * UNIT) for n in x["reqs"]], timeout=30, env=env)
+        probe = ["p%d" % (x["probe"] * UNIT)] if x.get("probe") else []
+        rc, o, e = sh([binp, fpath] + probe + [str(n * UNIT) for n in x["reqs"]], timeout=30, env=env)
         return x, rc, o
 
     with ThreadPoolExecutor(max_workers=16) as ex:
@@ -114,6 +133,13 @@ def run(tier):
                 continue
             pos = 0
             ok = True
+            if x.get("probe"):
+                (pn, pcrc), got = got[0], got[1:]
+                seen = -1000 - pn
+                need = min(x["probe"], 4, 6) * UNIT
+                if pn > -1000 or seen < need or pcrc != zlib.crc32(data[:need]):
+                    rep.violation("stream-probe-short", "one get_buffered_data(want=%d units) under OS answers %s shows %d bytes (%s units); a complete read shows >= %d units"
+                                  % (x["probe"], x["script"], seen, seen / UNIT, need // UNIT), data=x)
             for (n, crc), want in zip(got, x["results"]):
                 if n != want * UNIT or (n > 0 and crc != zlib.crc32(data[pos:pos + n])):
                     ok = False
@@ -141,6 +167,13 @@ def run(tier):
         cases.append(("gensquashfs-%d" % si, ["gensquashfs", "-q", "-f", "-c", "gzip", "-b", "4096", "-j", "2", "-F", s.packfile(), "@OUT"], None, "file"))
     cases.append(("tar2sqfs", ["tar2sqfs", "-q", "-f", "-c", "gzip", "-b", "4096", "@OUT"], tarb, "file"))
     cases.append(("tar2sqfs-big", ["tar2sqfs", "-q", "-f", "-c", "lz4", "@OUT"], big, "file"))
+    # compressed archives: the compressor is sniffed from the first bytes of the stream
+    import gzip as _gz, bz2 as _bz, lzma as _xz
+    for cname, blob in (("gz", _gz.compress(tarb, mtime=0)), ("bz2", _bz.compress(tarb)), ("xz", _xz.compress(tarb, format=_xz.FORMAT_XZ))):
+        cases.append(("tar2sqfs-" + cname, ["tar2sqfs", "-q", "-f", "-c", "gzip", "-b", "4096", "@OUT"], blob, "file"))
+    rcz, zblob, ez = sh(["zstd", "-q", "-c"], stdin=tarb, timeout=60)
+    if rcz == 0 and zblob:
+        cases.append(("tar2sqfs-zst", ["tar2sqfs", "-q", "-f", "-c", "gzip", "-b", "4096", "@OUT"], zblob, "file"))
     cases.append(("sqfs2tar", ["sqfs2tar", img], None, "stdout"))
     cases.append(("rdsquashfs-cat", ["rdsquashfs", "-c", "big", img], None, "stdout"))
     cases.append(("rdsquashfs-describe", ["rdsquashfs", "-d", img], None, "stdout"))
